@@ -53,15 +53,22 @@ Proof.
     destruct (Nat.eq_dec k1 i) as [->|N1]; rewrite ?(update_nth_same _ _ x _ Hi), ?(update_nth_other _ _ _ _ N1), ?E1; eauto.
 Qed.
 
+Lemma same_class_plain b b' r : same_class b b' -> b = BSwitch SPlain r -> exists r', b' = BSwitch SPlain r'.
+Proof. intros H ->. destruct b' as [e|c r'|r']; cbn in H; try contradiction. subst c. eauto. Qed.
+
 Lemma group_sim_update phi cn i ndi nd' g g' :
   nth_error cn i = Some ndi -> same_class (cn_body ndi) (cn_body nd') ->
   group_sim phi cn g g' -> group_sim phi (RowSem.update cn i nd') g g'.
 Proof.
-  intros Hi Hc H. destruct H as [k cls c rt nd Hk Hn Hcl|ps Hps|ps k k1 Hps Hk|ms]; try (constructor; assumption).
-  destruct (Nat.eq_dec (fst c) i) as [E|N].
-  - rewrite E in Hn. assert (nd = ndi) by congruence. subst nd.
-    eapply GS_row; [exact Hk|rewrite E; eapply update_nth_same; eauto|eapply class_ok_same; eauto].
-  - eapply GS_row; [exact Hk|rewrite update_nth_other by auto; exact Hn|exact Hcl].
+  intros Hi Hc H. destruct H as [k cls c rt nd Hk Hn Hcl|ps Hps|ps k k1 nd r Hps Hk Hn Hb|ms]; try (constructor; assumption).
+  - destruct (Nat.eq_dec (fst c) i) as [E|N].
+    + rewrite E in Hn. assert (nd = ndi) by congruence. subst nd.
+      eapply GS_row; [exact Hk|rewrite E; eapply update_nth_same; eauto|eapply class_ok_same; eauto].
+    + eapply GS_row; [exact Hk|rewrite update_nth_other by auto; exact Hn|exact Hcl].
+  - destruct (Nat.eq_dec k1 i) as [E|N].
+    + subst k1. assert (nd = ndi) by congruence. subst nd. destruct (same_class_plain _ _ _ Hc Hb) as (r' & Hb').
+      eapply GS_noop_router; [exact Hps|exact Hk|eapply update_nth_same; eauto|exact Hb'].
+    + eapply GS_noop_router; [exact Hps|exact Hk|rewrite update_nth_other by auto; exact Hn|exact Hb].
 Qed.
 
 Lemma group_sim_mono phi phi' cn cn' g g' :
@@ -69,8 +76,9 @@ Lemma group_sim_mono phi phi' cn cn' g g' :
   (forall i nd, nth_error cn i = Some nd -> nth_error cn' i = Some nd) ->
   group_sim phi cn g g' -> group_sim phi' cn' g g'.
 Proof.
-  intros Hp Hc H. destruct H as [k cls c rt nd Hk Hn Hcl|ps Hps|ps k k1 Hps Hk|ms]; try (constructor; auto).
-  eapply GS_row; eauto.
+  intros Hp Hc H. destruct H as [k cls c rt nd Hk Hn Hcl|ps Hps|ps k k1 nd r Hps Hk Hn Hb|ms]; try (constructor; auto).
+  - eapply GS_row; eauto.
+  - eapply GS_noop_router; eauto.
 Qed.
 
 (* ---------------------------------------------------------------- updating a reference node with a node of its cluster *)
@@ -78,10 +86,11 @@ Lemma Sim_set phi sr sc k n n' c i ndi nd' next' :
   Sim phi sr sc ->
   nth_error (s_nodes sr) k = Some n -> nth_error phi k = Some c -> In i (cluster_idx c) ->
   nth_error (cs_nodes sc) i = Some ndi -> cn_uuid nd' = cn_uuid ndi -> same_class (cn_body ndi) (cn_body nd') ->
+  rn_actions n' = rn_actions n ->
   (forall nd o, cluster_nodes (RowSem.update (cs_nodes sc) i nd') c = Some (nd, o) -> node_sim phi (cuu sc) n' nd o) ->
   Sim phi (RowSem.set_node sr k n') (Compile.set_node sc i nd' next').
 Proof.
-  intros [Hlen Hnodes Hdisj Hgroups Hginj Hrm Hst] Hk Hc Hin Hi Hu Hcl Hnew.
+  intros [Hlen Hnodes Hdisj Hgroups Hginj Hacts Hrm Hst] Hk Hc Hin Hi Hu Hcl Hact Hnew.
   assert (Euu : map cn_uuid (RowSem.update (cs_nodes sc) i nd') = cuu sc) by (unfold cuu; eapply update_map_same; eauto).
   constructor; cbn.
   - rewrite update_length. exact Hlen.
@@ -98,6 +107,9 @@ Proof.
   - exact Hdisj.
   - eapply Forall2_impl; [|exact Hgroups]. intros g g'. apply group_sim_update with (ndi := ndi); assumption.
   - exact Hginj.
+  - intros g ps k0 n0 Hg0 Hk0. destruct (Nat.eq_dec k0 k) as [->|Hne].
+    + rewrite (update_nth_same _ _ n' _ Hk) in Hk0. injection Hk0 as <-. rewrite Hact. eapply Hacts; eauto.
+    + rewrite update_nth_other in Hk0 by exact Hne. eapply Hacts; eauto.
   - exact Hrm.
   - exact Hst.
 Qed.
@@ -111,7 +123,7 @@ Lemma Sim_push phi sr sc n nd next' :
   Sim phi sr sc -> node_sim (phi ++ [(length (cs_nodes sc), None)]) (cuu sc ++ [cn_uuid nd]) n nd None ->
   Sim (phi ++ [(length (cs_nodes sc), None)]) (fst (RowSem.add_node sr n)) (push_node sc nd next').
 Proof.
-  intros [Hlen Hnodes Hdisj Hgroups Hginj Hrm Hst] Hnew.
+  intros [Hlen Hnodes Hdisj Hgroups Hginj Hacts Hrm Hst] Hnew.
   assert (Hbound : forall k c i, nth_error phi k = Some c -> In i (cluster_idx c) -> i < length (cs_nodes sc)).
   { intros k c i Hc Hi. assert (Hk : k < length (s_nodes sr)) by (rewrite <- Hlen; apply nth_error_Some; congruence).
     destruct (nth_error (s_nodes sr) k) as [n0|] eqn:En; [|apply nth_error_None in En; lia].
@@ -142,32 +154,71 @@ Proof.
     + intros k c. apply nth_error_app_l.
     + intros i x. apply nth_error_app_l.
   - exact Hginj.
+  - intros g ps k0 n0 Hg0 Hk0. destruct (Nat.lt_ge_cases k0 (length (s_nodes sr))) as [Hlt|Hge].
+    + rewrite nth_error_app1 in Hk0 by exact Hlt. eapply Hacts; eauto.
+    + (* a group never names a node that does not exist yet *)
+      exfalso. destruct (Forall2_nth _ _ _ _ _ Hgroups Hg0) as (y & _ & Hxy). inversion Hxy as [| |? ? ? ? ? ? Hk1|]; subst.
+      assert (k0 < length phi) by (apply nth_error_Some; congruence). lia.
   - exact Hrm.
   - exact Hst.
 Qed.
 
 (* ---------------------------------------------------------------- groups *)
+(* every node a group names exists *)
+Lemma grow_bound phi sr sc x : Sim phi sr sc -> In x (flat_map grow_node (s_groups sr)) -> x < length (s_nodes sr).
+Proof.
+  intros Hsim Hin. apply in_flat_map in Hin as (gr & Hgr & Hx). apply In_nth_error in Hgr as (g & Hg).
+  destruct (Forall2_nth _ _ _ _ _ (sim_groups _ _ _ Hsim) Hg) as (y & _ & Hxy). rewrite <- (sim_len _ _ _ Hsim).
+  destruct Hxy as [k cls c rt nd Hk _ _|ps _|ps k k1 nd r _ Hk _ _|ms]; cbn in Hx; try contradiction;
+    destruct Hx as [<-|[]]; apply nth_error_Some; congruence.
+Qed.
+
 Lemma Sim_set_group phi sr sc g gr gc old :
-  Sim phi sr sc -> nth_error (s_groups sr) g = Some old -> grow_node gr = grow_node old ->
+  Sim phi sr sc -> nth_error (s_groups sr) g = Some old ->
+  NoDup (grow_node gr) -> (forall x, In x (grow_node gr) -> In x (grow_node old) \/ ~ In x (flat_map grow_node (s_groups sr))) ->
+  (forall ps k n, gr = GNoOp ps (Some k) -> nth_error (s_nodes sr) k = Some n -> rn_actions n = []) ->
   group_sim phi (cs_nodes sc) gr gc -> Sim phi (RowSem.set_group sr g gr) (set_cgroup sc g gc).
 Proof.
-  intros [Hlen Hnodes Hdisj Hgroups Hginj Hrm Hst] Hg Hgn Hs. constructor; cbn; try assumption.
+  intros [Hlen Hnodes Hdisj Hgroups Hginj Hacts Hrm Hst] Hg Hnd Hnew Hact Hs. constructor; cbn; try assumption.
   - apply Forall2_update; assumption.
-  - destruct (flat_map_update_split grow_node _ _ _ Hg) as [E1 E2]. rewrite E2, Hgn, <- E1. exact Hginj.
+  - destruct (flat_map_update_split grow_node _ _ _ Hg) as [E1 E2]. rewrite E2. rewrite E1 in Hginj.
+    set (A := flat_map grow_node (firstn g (s_groups sr))) in *. set (B := flat_map grow_node (skipn (S g) (s_groups sr))) in *.
+    assert (HAB : NoDup (A ++ B)) by (apply NoDup_app_intro; [eapply NoDup_app_l, Hginj|eapply NoDup_app_r, NoDup_app_r, Hginj|];
+                                      intros x Hx Hb; eapply (NoDup_app_disj A (grow_node old ++ B)); [exact Hginj|exact Hx|apply in_or_app; right; exact Hb]).
+    assert (Hout : forall x, In x (grow_node gr) -> ~ In x A /\ ~ In x B).
+    { intros x Hx. destruct (Hnew x Hx) as [Ho|Hn].
+      - split.
+        + intros Ha. eapply (NoDup_app_disj A (grow_node old ++ B)); [exact Hginj|exact Ha|apply in_or_app; left; exact Ho].
+        + intros Hb. apply NoDup_app_r in Hginj. eapply (NoDup_app_disj (grow_node old) B); eauto.
+      - rewrite E1 in Hn. split; intros H; apply Hn; apply in_or_app; [left; exact H|right; apply in_or_app; right; exact H]. }
+    apply NoDup_app_intro; [eapply NoDup_app_l, HAB|apply NoDup_app_intro; [exact Hnd|eapply NoDup_app_r, HAB|]|].
+    + intros x Hx Hb. destruct (Hout x Hx) as [_ H]. contradiction.
+    + intros x Ha Hin. apply in_app_or in Hin as [Hx|Hb].
+      * destruct (Hout x Hx) as [H _]. contradiction.
+      * eapply (NoDup_app_disj A B); eauto.
+  - intros g0 ps k n Hg0 Hk. destruct (Nat.eq_dec g0 g) as [->|Hne].
+    + rewrite (update_nth_same _ _ gr _ Hg) in Hg0. injection Hg0 as ->. eapply Hact; eauto.
+    + rewrite update_nth_other in Hg0 by exact Hne. eapply Hacts; eauto.
 Qed.
 
 Lemma Sim_add_group phi sr sc gr gc rid :
   Sim phi sr sc -> group_sim phi (cs_nodes sc) gr gc ->
   (forall k, In k (grow_node gr) -> ~ In k (flat_map grow_node (s_groups sr))) ->
+  (forall ps k, gr <> GNoOp ps (Some k)) ->
   Sim phi (fst (RowSem.add_group sr gr rid)) (add_cgroup sc gc rid).
 Proof.
-  intros [Hlen Hnodes Hdisj Hgroups Hginj Hrm Hst] Hs Hnew.
+  intros [Hlen Hnodes Hdisj Hgroups Hginj Hacts Hrm Hst] Hs Hnew Hnr.
   assert (Hgl := Forall2_length' _ _ _ Hgroups).
   constructor; cbn; try assumption.
   - apply Forall2_app_one; assumption.
   - rewrite flat_map_app. cbn. rewrite app_nil_r. apply NoDup_app_intro; [exact Hginj| |].
     + destruct gr as [? ?|? [?|]|?]; cbn; try constructor; try (intros []); constructor.
     + intros k Hk Hk'. exact (Hnew k Hk' Hk).
+  - intros g ps k n Hg Hk. destruct (Nat.lt_ge_cases g (length (s_groups sr))) as [Hlt|Hge].
+    + rewrite nth_error_app1 in Hg by exact Hlt. eapply Hacts; eauto.
+    + assert (g = length (s_groups sr)).
+      { assert (g < length (s_groups sr ++ [gr])) by (apply nth_error_Some; congruence). rewrite app_length in *. cbn in *. lia. }
+      subst g. rewrite nth_error_app2 in Hg by lia. rewrite Nat.sub_diag in Hg. injection Hg as ->. exfalso. eapply Hnr; eauto.
   - rewrite Hgl, Hrm. reflexivity.
   - rewrite Hgl, Hst. reflexivity.
 Qed.
@@ -201,11 +252,12 @@ Lemma Sim_implicit phi sr sc g k cls n n' k1 nd nd1 nr next' rt :
   nth_error (s_nodes sr) k = Some n -> nth_error phi k = Some (k1, None) ->
   nth_error (s_groups sr) g = Some (GRow k cls) -> nth_error (cs_groups sc) g = Some (CGRow k1 [] rt) ->
   nth_error (cs_nodes sc) k1 = Some nd -> cn_uuid nd1 = cn_uuid nd -> same_class (cn_body nd) (cn_body nd1) ->
+  rn_actions n' = rn_actions n ->
   node_sim (RowSem.update phi k (k1, Some (length (cs_nodes sc)))) (cuu sc ++ [cn_uuid nr]) n' nd1 (Some nr) ->
   Sim (RowSem.update phi k (k1, Some (length (cs_nodes sc)))) (RowSem.set_node sr k n')
       (set_cgroup (push_node (Compile.set_node sc k1 nd1 next') nr next') g (CGRow k1 [length (cs_nodes sc)] rt)).
 Proof.
-  intros [Hlen Hnodes Hdisj Hgroups Hginj Hrm Hst] Hk Hc Hgr Hgc Hk1 Hu Hcl Hnew.
+  intros [Hlen Hnodes Hdisj Hgroups Hginj Hacts Hrm Hst] Hk Hc Hgr Hgc Hk1 Hu Hcl Hact Hnew.
   set (j := length (cs_nodes sc)) in *. set (phi' := RowSem.update phi k (k1, Some j)).
   assert (Hple : phi_le phi phi') by (eapply phi_le_update; eauto).
   assert (Euu : map cn_uuid (RowSem.update (cs_nodes sc) k1 nd1 ++ [nr]) = cuu sc ++ [cn_uuid nr]).
@@ -258,13 +310,17 @@ Proof.
       apply group_sim_update with (ndi := nd) (i := k1) (nd' := nd1) in Hab; [|exact Hk1|exact Hcl].
       assert (Hak : ~ In k (grow_node a)).
       { eapply (flat_map_NoDup_idx grow_node (s_groups sr) g i (GRow k cls) a k); eauto. left. reflexivity. }
-      destruct Hab as [k0 cls0 c0 rt0 nd0 Hk0 Hn0 Hcl0|ps Hps|ps k0 k1' Hps Hk0|ms].
+      destruct Hab as [k0 cls0 c0 rt0 nd0 Hk0 Hn0 Hcl0|ps Hps|ps k0 k1' nd0 r0 Hps Hk0 Hn0 Hb0|ms].
       * eapply GS_row; [unfold phi'; rewrite update_nth_other; [exact Hk0|intros ->; apply Hak; left; reflexivity]
                        |apply nth_error_app_l; exact Hn0|exact Hcl0].
       * constructor. exact Hps.
-      * constructor; [exact Hps|]. unfold phi'. rewrite update_nth_other; [exact Hk0|intros ->; apply Hak; left; reflexivity].
+      * eapply GS_noop_router; [exact Hps| |apply nth_error_app_l; exact Hn0|exact Hb0].
+        unfold phi'. rewrite update_nth_other; [exact Hk0|intros ->; apply Hak; left; reflexivity].
       * constructor.
   - exact Hginj.
+  - intros g0 ps k0 n0 Hg0 Hk0. destruct (Nat.eq_dec k0 k) as [->|Hne].
+    + rewrite (update_nth_same _ _ n' _ Hk) in Hk0. injection Hk0 as <-. rewrite Hact. eapply Hacts; eauto.
+    + rewrite update_nth_other in Hk0 by exact Hne. eapply Hacts; eauto.
   - exact Hrm.
   - exact Hst.
 Qed.
